@@ -77,6 +77,13 @@ def model_checks(ctx, mod, quick_cfgs, asis):
                  expect_violation=inv, files={"OpConfigs.tla": mod}, workers=4)
 
 
+def pairfn(v):
+    """a TLA+ function over <<hook, binding>> pairs as a dict keyed "hook/binding" (the empty function prints as <<>>)"""
+    if not isinstance(v, dict):
+        return {}
+    return {"/".join(ast.literal_eval(k)): x for k, x in v.items()}
+
+
 def gen(ctx, mod, cfg, num, depth, asis=False, sdafter=9999):
     d = os.path.dirname(ctx.path("opbeh", "x"))
     vlib.tlc(ctx, SPEC, "OpConfigs", SIM_CFG % dict(cfg=cfg, f8="FALSE" if asis else "TRUE", f11="FALSE" if asis else "TRUE", sdafter=sdafter), mode="sim",
@@ -86,7 +93,7 @@ def gen(ctx, mod, cfg, num, depth, asis=False, sdafter=9999):
         sts = tlaparse.parse_behaviour_file(f)
         os.unlink(f)
         if len(sts) > 3:
-            behs.append([{k: s[k] for k in ("act", "queues", "run", "backoff", "log", "down") if k != "log"} | {"buffered": {"/".join(ast.literal_eval(k)): v for k, v in s["buffered"].items()}, "mstate": {"/".join(ast.literal_eval(k)): v for k, v in s["mstate"].items()}} for s in sts])
+            behs.append([{k: s[k] for k in ("act", "queues", "run", "backoff", "down")} | {"buffered": pairfn(s["buffered"]), "mstate": pairfn(s["mstate"])} for s in sts])
     if not behs:
         raise Infra("no behaviours")
     return behs
@@ -105,7 +112,7 @@ def replay(ctx, cases, prefixes):
             continue
         sig = rr["sig"]
         if any(sig.startswith(p) for p in prefixes):
-            ctx.fail(sig, rr["detail"], {"config": c["config"], "actions": [s["act"] for s in c["steps"][1:rr.get("bad_step", 0) + 1]]})
+            ctx.fail(sig, rr["detail"], vlib.replay_payload("op", ["replay", "-in", "{in}", "-out", "{out}", "-hookbin", "{hookbin}"], c, human={"config": c["config"], "actions": [s["act"] for s in c["steps"][1:rr.get("bad_step", 0) + 1]]}))
         else:
             stats["diverged"] += 1
             ctx.notes.append("DIVERGENCE %s (config %s, step %s): %s" % (sig, c["config"], rr.get("bad_step"), rr["detail"][:300]))
@@ -155,7 +162,30 @@ def check_c03(ctx):
     run(ctx, ("C03/",), "placement, head-first, one execution per queue")
 
 
+def backoff_bounds(ctx):
+    """the back-off delay as a function of the failure count, sampled on the real code against spec/Operator/Backoff.tla"""
+    r = vlib.tlc(ctx, SPEC, "Backoff", "Backoff.cfg", timeout=300, expect_violation=False, workers=2)
+    cases = r["prints"]
+    if len(cases) != 40:
+        raise Infra("Backoff: %d cases instead of 40" % len(cases))
+    binary = vlib.go_build(ctx, "combine")
+    inp, outp = ctx.path("bo_in.jsonl"), ctx.path("bo_out.jsonl")
+    vlib.write_jsonl(inp, cases)
+    rr = vlib.run_bin(ctx, binary, ["-mode", "backoff", "-in", inp, "-out", outp], timeout=300)
+    if rr["rc"] != 0:
+        raise Infra("backoff sampling failed: " + rr["stderr"][-1500:])
+    for c, o in zip(cases, vlib.read_jsonl(outp)):
+        if not o["ok"]:
+            if o["sig"].startswith("C04/"):
+                ctx.fail(o["sig"], o["detail"], vlib.replay_payload("combine", ["-mode", "backoff", "-in", "{in}", "-out", "{out}"], c, human=c))
+            else:
+                ctx.notes.append("DIVERGENCE %s: %s" % (o["sig"], o["detail"]))
+    ctx.log("back-off bounds: %d (initial delay, failure count) pairs x 200 samples on CalculateDelay and the queue's ExponentialBackoffFn" % len(cases))
+    ctx.cov["backoff_cases"] = len(cases)
+
+
 def check_c04(ctx):
+    backoff_bounds(ctx)
     run(ctx, ("C04/",), "retry, back-off, allowFailure, discarded contexts")
 
 
@@ -182,7 +212,7 @@ def check_c07(ctx):
             raise Infra("combine: %d results for %d cases" % (len(res), len(cases)))
         for c, o in zip(cases, res):
             if not o["ok"]:
-                ctx.fail(o["sig"], o["detail"], {"layout": c["layout"], "expected": c["res"]})
+                ctx.fail(o["sig"], o["detail"], vlib.replay_payload("combine", ["-in", "{in}", "-out", "{out}"], c, human={"layout": c["layout"], "expected": c["res"]}))
         total += len(cases)
         ctx.log("%s: %d layouts enumerated by TLC, all replayed through both combine functions" % (cfg, len(cases)))
         ctx.sample({"layout": cases[len(cases) // 2]["layout"], "expected": cases[len(cases) // 2]["res"]})
